@@ -51,17 +51,12 @@ Theorem C06_names_distinct :
 Proof. exact names_distinct. Qed.
 Print Assumptions C06_names_distinct.
 
-(* full statement: names in index order are strictly increasing byte strings *)
-Definition C06_names_sorted_statement : Prop :=
+(* names in index order are strictly increasing byte strings (for every number an
+   unsigned int can hold): padded decimals of equal width compare like the numbers *)
+Theorem C06_names_sorted :
   forall (prefix : list Z) (number : N), number < 4294967296 -> sortedb (names prefix number) = true.
-(* PARTIAL: checked by computation for every number up to 130 and for 999, 1000, 1001
-   (widths 0..4 and the boundaries 10, 100, 1000); missing: the induction over the decimal
-   rendering that lifts it to all numbers (equal width below 10^digits, and
-   lexicographic = numeric order on equal-width digit strings). *)
-Theorem C06_names_sorted_partial :
-  forallb (fun k => sortedb (names [115; 46]%Z (N.of_nat k))) (seq 0 131 ++ [999; 1000; 1001]%nat) = true.
-Proof. vm_compute. reflexivity. Qed.
-Print Assumptions C06_names_sorted_partial.
+Proof. exact names_sorted. Qed.
+Print Assumptions C06_names_sorted.
 
 (* every output file -- also of a shard that received no line -- is a non-empty
    sequence of complete gzip/bzip2 members expanding to exactly the shard's lines
